@@ -11,6 +11,12 @@ open SteelVerif.C17
 #print axioms lostInterrupt_guard
 #print axioms lostInterrupt2_lost
 #print axioms not_interrupt_bounded_native
+#print axioms step_inv2
+#print axioms interrupt_delivered_partial
+#print axioms parkedForever_parks
+#print axioms parked_stays
+#print axioms not_interrupt_delivered
+#print axioms parkedForever_guard
 #print axioms resume_usable
 #print axioms example_delivered
 #print axioms example_native_nested
